@@ -59,11 +59,26 @@ Fixpoint trim_end (l : bytes) : bytes :=
               end
   end.
 
+Definition ends_in_cr (l : bytes) : bool :=
+  match l with [] => false | _ => beq (last l x00) CR end.
+Definition is_lf (e : bytes) : bool :=
+  match e with [a] => beq a LF | _ => false end.
+
+(* a CR that ends the trimmed content is content: the "\n" behind it is written
+   as "\r\n" ("fix: cleartext signed form: ..."), so that the line-ending
+   normalisation that follows does not take the pair for an existing CR LF *)
 Definition ut_line (line : bytes) : bytes :=
-  let (content, e) := split_eol line in trim_end (strip_dash_sp content) ++ e.
+  let (content, e) := split_eol line in
+  let tr := trim_end (strip_dash_sp content) in
+  tr ++ (if is_lf e && ends_in_cr tr then [CR; LF] else e).
 
 (* dash_unescape_and_trim *)
 Definition unescape_trim (t : bytes) : bytes := concat (map ut_line (lines_incl t)).
+
+(* the pinned tree: the line ending is copied as found *)
+Definition ut_line_merged (line : bytes) : bytes :=
+  let (content, e) := split_eol line in trim_end (strip_dash_sp content) ++ e.
+Definition unescape_trim_merged (t : bytes) : bytes := concat (map ut_line_merged (lines_incl t)).
 
 (* undoing the escaping only (octet level) *)
 Fixpoint unesc (at_start : bool) (l : bytes) : bytes :=
@@ -85,6 +100,8 @@ Definition trim_lines (t : bytes) : bytes := concat (map trim_line (lines_incl t
 
 (* signed_text() of the message built from [t]: what is hashed *)
 Definition signed_form (t : bytes) : bytes := canon (unescape_trim (dash_escape t)).
+
+Definition signed_form_merged (t : bytes) : bytes := canon (unescape_trim_merged (dash_escape t)).
 
 (* what `new`/`sign`/`new_many` hash (after "fix: cleartext signatures hash the
    trimmed text"): signed_text() of the message under construction *)
